@@ -50,7 +50,7 @@ func (s *scanner) reset() {
 // an error state is returned if maxNestingDepth was exceeded, otherwise successState is returned.
 func (s *scanner) pushParseState(newParseState int, successState int) int {
 	s.parseState = append(s.parseState, newParseState)
-	if len(s.parseState) <= maxNestingDepth {
+	if len(s.parseState) <= maxNestingDepth+1 { // the outermost value is depth 0
 		return successState
 	}
 	return scanError
